@@ -1,4 +1,4 @@
-/* C19 (C implementations): hash table, object stack and variable-length object keep their
+/* C19 (C implementations; hC19x.cpp compiles the same source against the C++ classes): hash table, object stack and variable-length object keep their
    abstract contents through any bounded history of operations. */
 #include <stdlib.h>
 #include <string.h>
@@ -7,6 +7,44 @@
 #include "hashtab.h"
 #include "objstack.h"
 #include "vlobject.h"
+#ifdef __cplusplus
+/* the C++ containers are driven through the same macro vocabulary that yaep.cpp uses */
+#define VLO_CREATE( v, allocator, len ) ( v ) = new class vlo( allocator, len )
+#define VLO_DELETE(vlo) delete vlo
+#define VLO_LENGTH(vlo) (vlo)->length ()
+#define VLO_BEGIN(vlo) (vlo)->begin ()
+#define VLO_ADD_MEMORY(vlo, addr, size) (vlo)->add_memory (addr, size)
+#define VLO_ADD_BYTE(vlo, b) (vlo)->add_byte (b)
+#define VLO_ADD_STRING(vlo, s) (vlo)->add_string (s)
+#define VLO_EXPAND(vlo, size) (vlo)->expand (size)
+#define VLO_SHORTEN(vlo, size) (vlo)->shorten (size)
+#define VLO_NULLIFY(vlo) (vlo)->nullify ()
+#define VLO_TAILOR(vlo) (vlo)->tailor ()
+#define OS_CREATE( o, allocator, len ) ( o ) = new class os( allocator, len )
+#define OS_EMPTY(os) (os)->empty ()
+#define OS_DELETE(os) delete os
+#define OS_TOP_BEGIN(os) (os)->top_begin ()
+#define OS_TOP_LENGTH(os) (os)->top_length ()
+#define OS_TOP_ADD_MEMORY(os, addr, size) (os)->top_add_memory (addr, size)
+#define OS_TOP_ADD_STRING(os, str) (os)->top_add_string (str)
+#define OS_TOP_ADD_BYTE(os, b) (os)->top_add_byte (b)
+#define OS_TOP_FINISH(os) (os)->top_finish ()
+#define OS_TOP_EXPAND(os, size) (os)->top_expand (size)
+#define OS_TOP_SHORTEN(os, size) (os)->top_shorten (size)
+#define OS_TOP_NULLIFY(os) (os)->top_nullify ()
+#define create_hash_table( allocator, size, hash, eq ) new hash_table( allocator, size, hash, eq )
+#define empty_hash_table(tab) (tab)->empty ()
+#define delete_hash_table(tab) delete tab
+#define find_hash_table_entry(tab, el, res_p) (tab)->find_entry(el, res_p)
+#define remove_element_from_hash_table_entry(tab, el) (tab)->remove_element_from_entry (el)
+#define hash_table_elements_number(tab) (tab)->elements_number ()
+#define hash_table_size(tab) (tab)->size ()
+typedef hash_table *hash_table_t;
+typedef class os *OSV; typedef class vlo *VLV;
+extern "C" void harness (void);
+#else
+typedef os_t OSV; typedef vlo_t VLV;
+#endif
 
 /* ---------------- hash table: elements with symbolic hash values */
 #define NEL 5
@@ -61,7 +99,7 @@ static void hash_history (YaepAllocator *al)
 #define MAXFIN 8
 static unsigned char model_top[200]; static int model_len;
 static struct { void *addr; int len; unsigned char bytes[64]; } fin[MAXFIN]; static int nfin;
-static void check_os (os_t *os)
+static void check_os (OSV *os)
 {
   int i, k; unsigned char *b;
   sx_assert ((int) OS_TOP_LENGTH (*os) == model_len, "top object length equals the number of bytes appended");
@@ -72,7 +110,7 @@ static void check_os (os_t *os)
 }
 static void os_history (YaepAllocator *al)
 {
-  int K = (int) sx_param ("steps", 5), s, k; os_t os; static const int inits[3] = { 0, 1, 8 };
+  int K = (int) sx_param ("steps", 5), s, k; OSV os; static const int inits[3] = { 0, 1, 8 };
   unsigned char src[32];
   OS_CREATE (os, al, (size_t) inits[sx_choice ("init", 3)]);
   model_len = 0; nfin = 0;
@@ -102,7 +140,7 @@ static void os_history (YaepAllocator *al)
 }
 
 /* ---------------- variable length object */
-static void check_vlo (vlo_t *v)
+static void check_vlo (VLV *v)
 {
   int k; unsigned char *b;
   sx_assert ((int) VLO_LENGTH (*v) == model_len, "VLO length equals bytes appended minus bytes shortened");
@@ -111,7 +149,7 @@ static void check_vlo (vlo_t *v)
 }
 static void vlo_history (YaepAllocator *al)
 {
-  int K = (int) sx_param ("steps", 5), s, k; vlo_t v; static const int inits[3] = { 0, 1, 8 }; unsigned char src[32];
+  int K = (int) sx_param ("steps", 5), s, k; VLV v; static const int inits[3] = { 0, 1, 8 }; unsigned char src[32];
   VLO_CREATE (v, al, (size_t) inits[sx_choice ("init", 3)]);
   model_len = 0;
   for (s = 0; s < K; s++)
